@@ -21,6 +21,20 @@ func (e *iso9660encoder) padLastSector() {
 	}
 }
 
+// appendDirEntries encodes entries of one directory: entry that doesn't fit to the rest of current sector
+// goes to the next one, the whole extent is padded to sector size (see dirEntriesSize).
+func (e *iso9660encoder) appendDirEntries(entries []directoryEntry) {
+	for _, entry := range entries {
+		if sectorSize-e.size()%sectorSize < entry.size() {
+			e.padLastSector()
+		}
+
+		entry.encode(e)
+	}
+
+	e.padLastSector()
+}
+
 func (e *iso9660encoder) appendByte(b byte) {
 	*e = append(*e, b)
 }
